@@ -312,6 +312,9 @@ PROPS["C15"] = {
         {"entry": "pkg/checksum.VerifCRCFold", "tier": "thorough", "clause": "CRC.Write of two bytes = fold of the step", "bounds": {}},
         {"entry": "pkg/checksum.VerifStdCRC32", "clause": "hash/crc32.Update (generic path) of one byte from an arbitrary state = bitwise reflected division; injective in the state", "bounds": {}},
         {"entry": "pkg/checksum.VerifIPv4Checksum", "clause": "IPv4 checksum over 0..6 bytes in 3 chunks at every split", "bounds": {"bytes": "0..6"}},
+        {"entry": "format/gzip.VerifGzipStructure", "clause": "gzip files written by an independent writer in the harness (RFC 1952 header, RFC 1951 stored block, 1..2 members, no optional fields): fq reports the mtime, xfl, os, compressed size, payload bytes (per member and concatenated), crc32 (valid) and isize that were written", "bounds": {"members": "1..2", "xfl/os": "any value (first member)", "mtime": "5 representatives (first member)", "payload": "0..2 fixed bytes, stored (uncompressed) deflate block"}},
+        {"entry": "format/gzip.VerifGzipOptionalFields", "clause": "one member with any combination of FTEXT/FHCRC/FEXTRA/FNAME/FCOMMENT and fixed small contents: fq reports the optional fields as written (known finding K2: the flag bits are read in reversed order)", "bounds": {"flags": "all 32 combinations", "contents": "fixed"}},
+        {"entry": "format/gzip.VerifGzipChecksum", "clause": "gzip crc32 is marked valid iff the stored value is the CRC-32 of the payload: any stored value over a fixed payload; any value of an altered payload byte against the original's crc", "bounds": {"payload": "2 bytes, one symbolic"}},
     ],
     "assumptions": ["internal/cpu feature flags are all false in the engine: hash/crc32 takes its pure Go path"],
     "outside": ["member names/sizes/payloads from independent writers, deflate/bzip2 decompression, zip/tar/gif/wav/png structure: whole-file parsing and decompression loops, no bounded kernel (not applicable to this technique)",
